@@ -304,6 +304,16 @@ pub struct Fault {
     pub mode: FaultMode,
 }
 
+/// A fault on a concrete database key (as recorded by the fault enumeration of C04).
+/// kind: 0 basic(a), 1 storage(a, b), 2 code(hash a), 3 block hash(number b)
+#[derive(Clone, Debug, Serialize, Deserialize, PartialEq)]
+pub struct RawFault {
+    pub kind: u8,
+    pub a: String,
+    pub b: String,
+    pub mode: FaultMode,
+}
+
 #[derive(Clone, Debug, Serialize, Deserialize, PartialEq)]
 pub struct Scenario {
     pub spec: u8,
@@ -313,6 +323,8 @@ pub struct Scenario {
     pub txs: Vec<TxDef>,
     pub grevm: GrevmCfg,
     pub faults: Vec<Fault>,
+    #[serde(default)]
+    pub raw_faults: Vec<RawFault>,
     /// None = free-running (real parallel threads)
     pub schedule: Option<Schedule>,
     /// database reads are schedule points
